@@ -260,7 +260,7 @@ Lemma read_loop_spec : forall fuel o lft acc,
   exists r bytes o',
     adfi_read_loop fuel o lft acc = Some (r, bytes, o') /\ disk o' = disk o /\
     (resps o = [] -> resps o' = []) /\
-    ((r = -1 /\ rderr o' = true) \/
+    ((r = -1 /\ rderr o' = true /\ resps o <> []) \/
      (bytes = acc ++ firstn lft (skipn (pos o) (disk o)) /\ r = Z.of_nat (length bytes) /\
       pos o' = (pos o + length (firstn lft (skipn (pos o) (disk o))))%nat /\ rderr o' = rderr o)).
 Proof.
@@ -292,7 +292,7 @@ Proof.
                  else adfi_read_loop f o1 (lft - length (firstn m (skipn (pos o) (disk o))))
                         (acc ++ firstn m (skipn (pos o) (disk o)))) = Some (r, bytes, o') /\
                 disk o' = disk o /\ (resps o = [] -> resps o' = []) /\
-                ((r = -1 /\ rderr o' = true) \/
+                ((r = -1 /\ rderr o' = true /\ resps o <> []) \/
                  (bytes = acc ++ firstn lft (skipn (pos o) (disk o)) /\ r = Z.of_nat (length bytes) /\
                   pos o' = (pos o + length (firstn lft (skipn (pos o) (disk o))))%nat /\ rderr o' = rderr o))).
     { intros want rs' Hw Hlen Hnil m o1.
@@ -313,7 +313,8 @@ Proof.
         { subst o1; cbn [resps]. assert (1 <= m)%nat by lia. assert (m <= lft)%nat by (unfold m; lia). lia. }
         exists r, bytes, o'. split; [exact Hrun|]. split; [rewrite Hd; reflexivity|].
         split; [intros Hx; apply Hn; subst o1; simpl; auto|].
-        destruct Hres as [Hres|(B1 & B2 & B3 & B4)]; [left; exact Hres|right].
+        destruct Hres as [(A1 & A2 & A3)|(B1 & B2 & B3 & B4)];
+          [left; repeat split; auto; intros Hx; apply A3; subst o1; cbn [resps]; auto|right].
         subst o1; cbn [disk pos rderr resps] in *.
         assert (Esplit : firstn lft (skipn (pos o) (disk o)) =
                          firstn m (skipn (pos o) (disk o)) ++ firstn (lft - m) (skipn (pos o + m) (disk o))).
@@ -335,7 +336,8 @@ Proof.
       destruct (IH o1 lft acc) as (r & bytes & o' & Hrun & Hd & Hn & Hres).
       { subst o1; simpl. simpl in Hf. lia. }
       exists r, bytes, o'. split; [exact Hrun|]. split; [rewrite Hd; reflexivity|].
-      split; [discriminate|]. exact Hres.
+      split; [discriminate|].
+      destruct Hres as [(A1 & A2 & A3)|Hres]; [left; repeat split; auto; discriminate|right; exact Hres].
     + (* hard error: rderr is set; if errno happens to be EINTR's number the C code retries *)
       cbv zeta. change (-1 =? 0) with false. change (-1 =? -1) with true. cbv iota.
       destruct (e =? EINTR) eqn:Ee.
@@ -343,7 +345,125 @@ Proof.
         destruct (IH o1 lft acc) as (r & bytes & o' & Hrun & Hd & Hn & Hres).
         { subst o1; simpl. simpl in Hf. lia. }
         exists r, bytes, o'. split; [exact Hrun|]. split; [rewrite Hd; reflexivity|].
-        split; [discriminate|]. exact Hres.
+        split; [discriminate|].
+        destruct Hres as [(A1 & A2 & A3)|Hres]; [left; repeat split; auto; discriminate|right; exact Hres].
       * exists (-1), acc, (set_sys_err (mkOs (disk o) (pos o) rs (sys_err o) (LRead (pos o) c (-1) :: log o) true) e).
-        repeat split; auto; try discriminate.
+        split; [reflexivity|]. split; [reflexivity|]. split; [discriminate|]. left. repeat split; auto; discriminate.
 Qed.
+
+(* ------------------------------------------------------------------ fault transparency (lock-step simulation) *)
+(* faulty OS state f and fault-free OS state i agree on everything the program can observe *)
+Definition Ro (f i : os) : Prop := disk f = disk i /\ pos f = pos i /\ resps i = [] /\ rderr f = false.
+Definition R (sf si : st) : Prop := c_ sf = c_ si /\ in_use sf = in_use si /\ Ro (o_ sf) (o_ si).
+
+Lemma Ro_sys_err f i a b : Ro f i -> Ro (set_sys_err f a) (set_sys_err i b).
+Proof. unfold Ro; simpl; auto. Qed.
+
+Lemma sim_write f i data r f' :
+  Ro f i -> adfi_write f data = Some (r, f') -> r = Z.of_nat (length data) ->
+  exists i', adfi_write i data = Some (r, i') /\ Ro f' i'.
+Proof.
+  intros (Hd & Hp & Hn & He) H Hr.
+  destruct (adfi_write_full f data r f' H Hr) as (F1 & F2 & F3 & _).
+  destruct (adfi_write_ideal i data Hn) as (i' & Hi).
+  destruct (adfi_write_full i data _ i' Hi eq_refl) as (I1 & I2 & I3 & I4).
+  exists i'. subst r. split; [exact Hi|]. unfold Ro. rewrite F1, F2, F3, I1, I2, Hd, Hp. auto.
+Qed.
+
+Lemma write_total o data : adfi_write o data <> None.
+Proof. destruct (adfi_write_retry o data) as (r & o' & nl & H & _). congruence. Qed.
+
+Lemma sim_read f i n r bytes f' :
+  Ro f i -> adfi_read f n = Some (r, bytes, f') -> rderr f' = false ->
+  exists i', adfi_read i n = Some (r, bytes, i') /\ Ro f' i'.
+Proof.
+  intros (Hd & Hp & Hn & He) H Hf'. unfold adfi_read in *.
+  destruct (read_loop_spec (S (length (resps f) + n)) (set_sys_err f 0) n []) as (r1 & b1 & f1 & H1 & D1 & _ & C1).
+  { simpl. lia. }
+  rewrite H in H1. inversion H1; subst r1 b1 f1. clear H1.
+  destruct (read_loop_spec (S (length (resps i) + n)) (set_sys_err i 0) n []) as (r2 & b2 & i2 & H2 & D2 & N2 & C2).
+  { simpl. lia. }
+  exists i2. simpl in *.
+  destruct C1 as [(A1 & A2 & _)|(B1 & B2 & B3 & B4)]; [congruence|].
+  destruct C2 as [(A1 & A2 & A3)|(E1 & E2 & E3 & E4)]; [congruence|].
+  rewrite Hd, Hp in *. split.
+  - rewrite H2. subst. reflexivity.
+  - unfold Ro. rewrite D1, D2, B3, E3. repeat split; auto.
+Qed.
+
+Lemma read_total o n : adfi_read o n <> None.
+Proof.
+  unfold adfi_read. destruct (read_loop_spec (S (length (resps o) + n)) (set_sys_err o 0) n []) as (r & b & o' & H & _).
+  { simpl. lia. } congruence.
+Qed.
+
+Lemma sim_lseek f i off r e f' :
+  Ro f i -> sys_lseek f off = (r, e, f') -> (r <? 0) = false -> 0 <= off ->
+  exists i', sys_lseek i off = (r, 0, i') /\ Ro f' i'.
+Proof.
+  intros (Hd & Hp & Hn & He) H Hr Hoff. unfold sys_lseek in *. rewrite Hn.
+  destruct (resps f) as [|[n| |x] rs]; inversion H; subst; clear H; try discriminate; simpl;
+    (eexists; split; [reflexivity|]; unfold Ro; simpl; auto).
+Qed.
+
+Lemma sim_fseek sf si b off sf' :
+  R sf si -> fseek_file sf b off = Done tt sf' -> exists si', fseek_file si b off = Done tt si' /\ R sf' si'.
+Proof.
+  intros (Hc & Hu & Ho) H. unfold fseek_file in *. rewrite <- Hu.
+  destruct (negb (in_use sf)); [discriminate|].
+  destruct (seek_offset b off <? 0) eqn:Hneg; [discriminate|].
+  destruct (sys_lseek (set_sys_err (o_ sf) 0) (seek_offset b off)) as [[r e] f'] eqn:Hs.
+  destruct (r <? 0) eqn:Hr; [discriminate|]. inversion H; subst sf'. clear H.
+  destruct (sim_lseek _ (set_sys_err (o_ si) 0) _ _ _ _ (Ro_sys_err _ _ 0 0 Ho) Hs Hr) as (i' & Hi & Hro).
+  { apply Z.ltb_ge. exact Hneg. }
+  rewrite Hi, Hr. eexists. split; [reflexivity|]. unfold R, with_os; simpl. auto.
+Qed.
+
+Lemma sim_fsync sf si sf' :
+  R sf si -> fflush_file sf = Done tt sf' -> exists si', fflush_file si = Done tt si' /\ R sf' si'.
+Proof.
+  intros (Hc & Hu & (Hd & Hp & Hn & He)) H. unfold fflush_file in *. rewrite <- Hu.
+  destruct (negb (in_use sf)); [discriminate|].
+  unfold sys_fsync in *. simpl resps in *. rewrite Hn.
+  destruct (resps (o_ sf)) as [|[n| |x] rs]; simpl in *; inversion H; subst; clear H;
+    (eexists; split; [reflexivity|]; unfold R, Ro, with_os; simpl; auto).
+Qed.
+
+(* an operation that reports success on the faulty OS (and saw no hard read error) did exactly what the same
+   operation does on the fault-free OS *)
+Ltac inv H := inversion H; subst; clear H.
+
+Lemma sim_write_file sf si fi b off data sf' :
+  R sf si -> write_file sf fi b off data = Done tt sf' -> rderr (o_ sf') = false ->
+  exists si', write_file si fi b off data = Done tt si' /\ R sf' si'.
+Proof.
+  intros HR H Hfin. destruct sf as [fo c u], si as [io c' u']. destruct HR as (Hc & Hu & Ho). simpl in Hc, Hu, Ho. subst c' u'.
+  unfold write_file in *. cbn [in_use c_ with_cache o_] in *.
+  destruct (negb u) eqn:Hin; [discriminate|].
+  set (len := Z.of_nat (length data)) in *.
+  set (end_block := b + (off + len) / DISK_BLOCK_SIZE + 1) in *.
+  set (c1 := if (last_rd_file c =? fi) && (last_rd_block c >=? b) && (last_rd_block c <=? end_block) then reset_rd c else c) in *.
+  (* phase 1: flush *)
+  match type of H with
+  | match ?FL with _ => _ end = _ => set (flushF := FL) in *
+  end.
+  match goal with
+  | |- exists si', match ?FL with _ => _ end = _ /\ _ => set (flushI := FL)
+  end.
+  assert (P1 : forall s1, flushF = Done tt s1 -> exists s1', flushI = Done tt s1' /\ R s1 s1').
+  { intros s1 E. subst flushF flushI.
+    destruct (((len + off >? DISK_BLOCK_SIZE) || negb (last_wr_block c1 =? b) || negb (last_wr_file c1 =? fi) || (len =? 0)) &&
+              (flush_wr c1 >? 0)).
+    - destruct (fseek_file (mkSt fo c1 u) (last_wr_block c1) 0) as [[] s2| |] eqn:Hs; try discriminate.
+      destruct (sim_fseek (mkSt fo c1 u) (mkSt io c1 u) _ _ _ ltac:(unfold R; simpl; auto) Hs) as (s2' & Hs' & (Rc & Ru & Rro)).
+      rewrite Hs'.
+      destruct (adfi_write (o_ s2) (wr_buf c1)) as [[iret o2]|] eqn:Hw; [|discriminate].
+      destruct (negb (iret =? DISK_BLOCK_SIZE)) eqn:Hi; [discriminate|].
+      apply negb_false_iff, Z.eqb_eq in Hi.
+      (* the buffer is 4096 bytes long whenever iret = 4096 is compared with the bytes written: we only need
+         that the faulty write returned its full length, which is what iret = length says when they coincide;
+         otherwise the ideal write would return a different value -- handled by requiring the invariant below *)
+      admit.
+    - inv E. eexists. split; [reflexivity|]. unfold R; simpl; auto. }
+  admit.
+Admitted.
